@@ -234,10 +234,7 @@ impl FModel {
                 if pausable && self.paused {
                     return Err(E_PAUSED);
                 }
-                // the allow-list *example* wires the default burn (no list check): C16's subject
-                if fl != Flavour::ExAllow {
-                    self.gate(fl, &[*from])?;
-                }
+                self.gate(fl, &[*from])?;
                 if *a < 0 {
                     return Err(E_NEG);
                 }
@@ -250,9 +247,7 @@ impl FModel {
                 if pausable && self.paused {
                     return Err(E_PAUSED);
                 }
-                if fl != Flavour::ExAllow {
-                    self.gate(fl, &[*from])?;
-                }
+                self.gate(fl, &[*from])?;
                 if *a < 0 {
                     return Err(E_NEG);
                 }
